@@ -156,7 +156,9 @@ def ex_text(e, names, fnames):
         return "(%s %s %s)" % (ex_text(e[1], names, fnames), {"add": "+", "sub": "-", "mul": "*", "div": "/"}[k], ex_text(e[2], names, fnames))
     if k == "ite":
         return "if(%s > %s, %s, %s)" % tuple(ex_text(x, names, fnames) for x in e[1:])
-    return "%s(%s)" % (fnames[e[1]], ", ".join(ex_text(a, names, fnames) for a in e[2]))
+    # (a blank, a tab or nothing between the name and its bracket: the formula language does not care - chosen from the call's own content, so the text is reproducible)
+    gap = ["", "", " ", "\t", "  "][(len(e[2]) + e[1] + len(str(e[2]))) % 5]
+    return "%s%s(%s)" % (fnames[e[1]], gap, ", ".join(ex_text(a, names, fnames) for a in e[2]))
 
 
 def ex_lean(e):
@@ -224,6 +226,26 @@ def check(run):
             if g2 != got:
                 run.fail("definition-layout", "the same definition parses differently when laid out as %r (delimiter %r): %s vs %s" % (txt, delim, g2, got), dict(base=base, variant=txt, delimiter=delim))
                 break
+    # ---- (B0) modifiers whose arguments are written identically: every argument counts (product(f, f) squares f) ----------------------------
+    import atsim.potentials as _ap
+    from atsim.potentials import potentialforms as _pfo
+    same = [("product(as.constant 2.0, as.constant 2.0, as.constant 4.0)", lambda r: 16.0),
+            ("sum(as.buck 1000.0 0.3 32.0, as.buck 1000.0 0.3 32.0)", lambda r: 2.0 * _pfo.buck(1000.0, 0.3, 32.0)(r)),
+            ("product(as.bornmayer 800.0 0.3, as.bornmayer 800.0 0.3)", lambda r: _pfo.bornmayer(800.0, 0.3)(r) ** 2),
+            ("pow(as.constant 2.0, as.constant 2.0)", lambda r: 4.0),
+            ("sum(as.constant 1.0, product(as.polynomial 0.0 1.0, as.polynomial 0.0 1.0), as.constant 1.0)", lambda r: 2.0 + r * r),
+            ("sum(>=0 as.lj 0.1 2.5 >=2.0 as.zero, >=0 as.lj 0.1 2.5 >=2.0 as.zero)", lambda r: 0.0 if r >= 2.0 else 2.0 * _pfo.lj(0.1, 2.5)(r))]
+    for txt, ref in same:
+        run.case(key=("identical-arguments", txt), kind="api-equivalence/identical-arguments")
+        run.traces += 1
+        try:
+            g = potable_callable(txt)
+            bad = next(((r, g(r), ref(r)) for r in (0.5, 1.25, 1.75, 3.0) if not close(g(r), ref(r), 1e-12, 1e-12)), None)
+        except Exception as e:
+            run.fail("potable-rejects-valid", "well-formed definition refused: %s: %s" % (type(e).__name__, str(e)[:200]), dict(definition=txt))
+            continue
+        if bad:
+            run.fail("modifier-meaning", "%s evaluates to %r at r=%r; every argument counted, the definition denotes %r" % (txt, bad[1], bad[0], bad[2]), dict(definition=txt, r=bad[0]))
     # ---- (B) modifiers: potable text vs Python API ---------------------------------------------------------------------------
     nb = 0
     for i in range(run.n(150, 3000)):
